@@ -76,10 +76,19 @@ type Config struct {
 	Model     bool  // C03 oracle
 	Persist   bool  // C04 oracle
 	MaxStates int
+	// ShrinkOnly drops every transition that adds a key: starting from a value that holds all
+	// active keys, the search visits every subset reachable by removals (trie nodes shrinking below
+	// their thresholds) without re-growing through the array node, whose entry orders would blow the
+	// state space up.
+	ShrinkOnly bool
 }
 
 func (c Config) Name() string {
-	return fmt.Sprintf("%s/%s/ballast=%d/start=%s/active=%d", c.Kind, c.Hasher.Name, c.Ballast, c.Start, len(c.Active))
+	n := fmt.Sprintf("%s/%s/ballast=%d/start=%s/active=%d", c.Kind, c.Hasher.Name, c.Ballast, c.Start, len(c.Active))
+	if c.ShrinkOnly {
+		n += "/shrink-only"
+	}
+	return n
 }
 
 func (c Config) ballastKeys() []int {
@@ -716,6 +725,13 @@ func Search(x *mc.X, cfg Config) {
 					ref[k] = 9
 				}
 				init.op = fmt.Sprintf("immutable.Map(h) then %d x Updated(ballast)", len(ballast))
+				if cfg.ShrinkOnly {
+					for _, k := range cfg.Active {
+						init.m = init.m.Updated(k, cfg.Values[0])
+						ref[k] = cfg.Values[0]
+					}
+					init.op += fmt.Sprintf(" then Updated(k,%d) for every active key %v", cfg.Values[0], cfg.Active)
+				}
 			case "zero":
 				for _, k := range ballast {
 					init.m = init.m.Updated(k, 9)
@@ -738,6 +754,13 @@ func Search(x *mc.X, cfg Config) {
 					ref[k] = 1
 				}
 				init.op = fmt.Sprintf("immutable.Set(h) then %d x Incl(ballast)", len(ballast))
+				if cfg.ShrinkOnly {
+					for _, k := range cfg.Active {
+						init.s = init.s.Incl(k)
+						ref[k] = 1
+					}
+					init.op += fmt.Sprintf(" then Incl(k) for every active key %v", cfg.Active)
+				}
 			case "zero":
 				for _, k := range ballast {
 					init.s = init.s.Incl(k)
@@ -793,6 +816,9 @@ func Search(x *mc.X, cfg Config) {
 				}
 			})
 			nst.op = opName
+			if cfg.ShrinkOnly && pv == nil && len(nst.ref) > len(st.ref) {
+				continue
+			}
 			s.trans++
 			hist := ""
 			histf := func() string {
